@@ -27,11 +27,14 @@ def main():
     checks = [prop]
     skip_suite = "--skip-suite" in sys.argv
     needs = ""
+    name = "%s_%s" % (prop, var)
     for i, a in enumerate(sys.argv):
         if a == "--checks":
             checks = sys.argv[i + 1].split(",")
         if a == "--needs":
             needs = sys.argv[i + 1]
+        if a == "--name":
+            name = sys.argv[i + 1]
     seed = os.path.join(wt, "_seed")
     patch = os.path.join(seed, "variant_%s.diff" % var)
     demo = os.path.join(seed, "demo_%s.cpp" % var)
@@ -94,7 +97,7 @@ def main():
     meta["caught_by"] = sorted(c for c, r in results.items() if r["exit"] == 1 and r["violations"] > 0)
     notes = os.path.join(seed, "notes.md")
     if meta["confirmed"]:
-        d = os.path.join(VERIF, "seeded", "%s_%s" % (prop, var))
+        d = os.path.join(VERIF, "seeded", name)
         os.makedirs(d, exist_ok=True)
         shutil.copy(patch, os.path.join(d, "patch.diff"))
         shutil.copy(demo, os.path.join(d, os.path.basename(demo)))
